@@ -57,6 +57,6 @@ VARIABLE x
 Init == x = 0
 Next == UNCHANGED x
 Spec == Init /\ [][Next]_x
-Write == JsonSerialize(IOEnv.RESULT_FILE, [values |-> SetToSeq(Values), a |-> SetToSeq(TableA),
+Write == TLCGet("distinct") >= 0 /\ JsonSerialize(IOEnv.RESULT_FILE, [values |-> SetToSeq(Values), a |-> SetToSeq(TableA),
                                             cards |-> CardSeq, b |-> SetToSeq(TableB)])
 =============================================================================
